@@ -53,6 +53,17 @@ def run(ctx):
             x = [int(y[1:]) for y in m.group(3).split(",") if y]
             if i >= len(g["nodes"]):
                 continue
+            # each value fact is written with the tag of ITS kind (the graph's facts are read through the library API)
+            node_txt = r[m.start():]
+            node_txt = node_txt[:node_txt.find(") Y(") if ") Y(" in node_txt else len(node_txt)]
+            for fld, facts in (("ri", g["nodes"][i].ri), ("ro", g["nodes"][i].ro)):
+                fm = re.search(r" %s=\{([^}]*)\}" % fld, node_txt)
+                dumped = dict((kv.split("=")[0][1:], kv.split("=")[1].split("(")[0].lstrip("!")) for kv in fm.group(1).split(";") if "=" in kv) if fm else {}
+                kinds = dict((k_, v_.split(":")[0]) for k_, v_ in facts.items())
+                if dumped != kinds:
+                    diff = [(k_, kinds.get(k_), dumped.get(k_)) for k_ in sorted(set(kinds) | set(dumped), key=lambda z: int(z) if z.isdigit() else 0) if kinds.get(k_) != dumped.get(k_)]
+                    failing.append(dict(files=f, base=b, kind=tag, why="node %d %s: (register, kind of the fact, tag in the dump) differ: %s" % (i, fld, diff[:4])))
+                    break
             want = sorted((g["funcs"][fid]["entry"], g["funcs"][fid]["exit"]) for fid in g["nodes"][i].funcs if fid < len(g["funcs"]))
             if len(e) != len(x) or sorted(zip(e, x)) != want:
                 failing.append(dict(files=f, base=b, kind=tag, why="node %d: the dump pairs entries %s with exits %s, its functions are (entry, exit) = %s" % (i, e, x, want)))
